@@ -10,6 +10,9 @@ def sh(cmd, cwd=None, timeout=7200):
     return p.returncode, p.stdout
 meta = json.load(open(os.path.join(wt, 'SEED', 'meta.json')))
 demo = meta['demo_cmd']
+# testers sometimes append a prose note in parentheses to the command: keep the command only
+import re
+demo = re.sub(r'\s+\((?:run from|release mode|create|note)[^)]*\)\s*$', '', demo)
 res = {}
 rc, out = sh(demo, cwd=wt); res['demo_with_patch_rc'] = rc; res['demo_with_patch_tail'] = out[-600:]
 res['demo_fails_with_patch'] = ('test result: FAILED' in out) or ('error: test failed' in out) or rc != 0
